@@ -275,6 +275,7 @@ class SyncInterpreter(BaseInterpreter[TContext, TEvent]):
                 actor.stop()
             finally:
                 self._actors.pop(actor_id, None)
+        self._drop_own_system_ids()
 
         # 2️⃣ Cancel all `after` timers by signaling their cancellation events
         for state_id in list(self._after_events.keys()):
